@@ -26,6 +26,18 @@ class _HeterogenousEnsembleForecaster(_SktimeForecaster, _HeterogenousMetaEstima
         self.n_jobs = n_jobs
         super(_HeterogenousEnsembleForecaster, self).__init__()
 
+    def _set_cutoff(self, cutoff):
+        """Set and update cutoff, also of the fitted component forecasters, so that
+        forecasts keep being made from the composite's own cutoff (e.g. when it is
+        restored at the end of update_predict)"""
+        super(_HeterogenousEnsembleForecaster, self)._set_cutoff(cutoff)
+        components = list(self.forecasters_ or []) + [getattr(self, "_forecaster", None)]
+        for forecaster in components:
+            if getattr(forecaster, "_is_fitted", False) and hasattr(
+                forecaster, "_set_cutoff"
+            ):
+                forecaster._set_cutoff(cutoff)
+
     def _check_forecasters(self):
         if (
             self.forecasters is None
